@@ -13,20 +13,22 @@ Definition ix_overlaps (r : irec) (rid beg end_ : Z) : Prop :=
 Definition ix_covers (cs : list chunk) (r : irec) : Prop :=
   exists c, In c cs /\ fst c <= q_cb r /\ q_ce r <= snd c.
 
-(** Coordinate-sorted, in-range, monotone layout.  The three accumulators are
-    the reference id, start and chunk end of the last placed record.  Unplaced
-    records may appear anywhere; they only have to pass Add's range test. *)
+(** Coordinate-sorted, in-range, monotone layout, and nothing else.  [limit] is
+    the largest indexable position; the end of a record is exclusive, so it
+    may be [limit + 1].  The three accumulators are the reference id, start and
+    chunk end of the last placed record.  Unplaced records may appear anywhere;
+    they only have to pass Add's range test (bam: Pos = -1, End = 0). *)
 Fixpoint ix_wf_from (limit lrid lstart lend : Z) (rs : list irec) : Prop :=
   match rs with
   | [] => True
   | r :: t =>
       if q_placed r then
         0 <= q_rid r /\ lrid <= q_rid r /\ (q_rid r = lrid -> lstart <= q_start r) /\
-        0 <= q_start r < q_end r /\ q_end r <= limit /\
+        0 <= q_start r < q_end r /\ q_end r <= limit + 1 /\
         lend <= q_cb r < q_ce r /\
         ix_wf_from limit (q_rid r) (q_start r) (q_ce r) t
       else
-        -1 <= q_start r <= limit /\ -1 <= q_end r <= limit /\ ix_wf_from limit lrid lstart lend t
+        -1 <= q_start r <= limit /\ 0 <= q_end r <= limit + 1 /\ ix_wf_from limit lrid lstart lend t
   end.
 
 (** Largest coordinate [IsValidIndexPos] accepts: [2^29 - 2]. *)
